@@ -447,9 +447,9 @@ def run_c13(ctx, fa):
                 vt = "<<" + type(e).__name__ + ">>"
             c["variants"].append({"schema": proj.pj(raw), "text": proj.cps(vt), "kind": "embedded-parsed-child"})
         if tree2 is not None:
-            for _ in range(2):
+            for rep in range(2):
                 try:
-                    d = g.datum(ir, hints=False)
+                    d = g.datum(ir, hints=False, omit=(rep == 0))      # the second datum names every field
                     fo = io.BytesIO()
                     fa.schemaless_writer(fo, raw, d)
                     data = fo.getvalue()
@@ -476,6 +476,14 @@ def run_c13(ctx, fa):
                     except Exception as e:  # noqa: BLE001
                         back4 = {"ok": False, "exc": proj.pexc(e)["exc"]}
                 ent = {"bytes": list(data), "back": back, "back2": back2, "back3": back3}
+                # a datum that names every field, written under the canonical form too: the same bytes
+                if rep == 1:
+                    try:
+                        fo2 = io.BytesIO()
+                        fa.schemaless_writer(fo2, tree2, d)
+                        ent["bytes2"] = {"ok": True, "bytes": list(fo2.getvalue())}
+                    except Exception as e:  # noqa: BLE001
+                        ent["bytes2"] = {"ok": False, "exc": proj.pexc(e)["exc"]}
                 if back4 is not None:
                     ent["back4"] = back4
                 c["enc"].append(ent)
